@@ -114,7 +114,7 @@ FAULTS = {
     "examples-outside-outline": ["Examples: stray", "  Examples:"],
     "and-without-predecessor": ["And orphan", "  But orphan"],
     "ragged-table-row": ["| 1 | 2 | 3 | 4 | 5 |", "  | 1 | 2 | 3 | 4 | 5 |"],
-    "bad-tag-token": ["@ok bad-token", "  @ok bad", "@ok {slow}", "  @smoke {0} %s %(x)s"],
+    "bad-tag-token": ["@ok bad-token", "  @ok bad", "@ok {slow}", "  @smoke {0} %s %(x)s", "@issue#17 slow", "  @fixed @bug#4 slow @smoke"],
     # inside a doc-string: a line indented less than the opening delimiter
     "underindented-docstring-line": ["text at column 0", " one blank only", '{"id": 1, "fmt": "%s {x}"}'],
 }
